@@ -359,7 +359,7 @@ impl C13 {
             if cmds.iter().any(|c| c.count() >= (1 << 31)) {
                 return None;
             }
-            if fv.lenient {
+            if fv.lenient || sc.knob("lenient_stdin_error") == 1 {
                 (Want::AnyDefined, want_for(&cmds, &stdin, sc.budget, sc.cap_bits).1, cmds.len())
             } else if sub == "check" {
                 (Want::Status0, 1000, cmds.len())
@@ -554,6 +554,21 @@ impl Property for C13 {
             }
         }
         // the fault-free file at the two other levels too
+        // F10: the n-th raw read of standard input fails with an I/O error (any defined ending, never a panic)
+        for level in 0u8..3 {
+            idx += 1;
+            if only != 0 && only != idx {
+                continue;
+            }
+            let mut s2 = sc.clone();
+            s2.plan.read_error_at = (mix(sc.plan.key ^ 0xE10 ^ level as u64) % 4) as i64;
+            s2.set_knob("lenient_stdin_error", 1);
+            if let Some(v) = self.one(&s2, "none", "none", "run", level, &mut out) {
+                out.violation = Some(v);
+                out.add("failing_variant_index", idx as u64);
+                return out;
+            }
+        }
         for sclass in std::iter::once(&"none").chain(STDIN_CLASSES.iter()) {
             for level in 0u8..3 {
                 idx += 1;
